@@ -210,14 +210,15 @@ def run(tier):
                        "(T * x; (T)(x); sizeof(T); T (x); and sizeof inside initializer braces / struct bodies); "
                        "a case is a distinct history")
     plans = [("2 names, <=4 items, depth 2, all item kinds", ["T", "U"], 4, 2, ALL_KINDS,
-              40000 if tier == "quick" else None)]
+              30000 if tier == "quick" else None)]
     if tier == "quick":
         plans.append(("1 name, <=6 items, depth 2, core kinds", ["T"], 6, 2,
-                      {"typedef", "obj", "enum", "func", "func0", "open", "forinit", "label", "proto", "tag", "member"}, 30000))
+                      {"typedef", "obj", "enum", "func", "func0", "open", "forinit", "label", "proto", "tag", "member"}, 20000))
     else:
         plans.append(("2 names, <=5 items, depth 2, all item kinds", ["T", "U"], 5, 2, ALL_KINDS, None))
         plans.append(("1 name, <=7 items, depth 3", ["T"], 7, 3,
                       {"typedef", "obj", "enum", "func", "func0", "open", "forinit", "krfunc", "enum2"}, None))
+    protocol_model(ctx, tier)
     traced = []
     for label, names, items, depth, kinds, sample in plans:
         exports = enumerate_histories(ctx, label, names, items, depth, kinds)
@@ -239,6 +240,24 @@ def run(tier):
     ctx.assumptions += ["spec/Scope.tla is C99 6.2.1/6.2.3 for ordinary identifiers; prototype parameters never bind "
                         "(stated by the property)"]
     return ctx.finish()
+
+
+def protocol_model(ctx, tier):
+    """spec level: the lexer/parser protocol of ScopeImpl.tla - ClassCorrect holds under the lookahead discipline and
+    is violated without it (the second run is the vacuity guard)."""
+    toks = 8 if tier == "quick" else 10
+    base = "CONSTANTS Names = {\"T\"}\nMaxToks = %d\nK = %d\nDiscipline = %s\nINIT Init\nNEXT Next\n" \
+           "INVARIANT ClassCorrect\nINVARIANT TableCorrect\nCHECK_DEADLOCK FALSE\n"
+    res = tlc("ScopeImpl", base % (toks, 3, "TRUE"), timeout=3000)
+    tlc_ok(res, "ScopeImpl with discipline")
+    if res.violated:
+        raise common.MachineryError("ScopeImpl: %s violated although the discipline is on" % res.violated)
+    ctx.add_tlc(res, "ScopeImpl: all programs <=%d tokens, lookahead K=3, Discipline=TRUE (ClassCorrect, TableCorrect)" % toks)
+    res = tlc("ScopeImpl", base % (6, 2, "FALSE"), timeout=3000)
+    if res.violated != "ClassCorrect":
+        raise common.MachineryError("vacuity: ScopeImpl without the discipline does not violate ClassCorrect")
+    ctx.note("protocol_model", "ClassCorrect holds with the lookahead discipline (K=3) and is violated without it (K=2): "
+                               "the discipline is necessary; on the code it is ParserTrace.LookaheadSafe")
 
 
 def replay_histories(ctx, exports, label):
